@@ -1726,7 +1726,7 @@ def _option_cases(rng):
     return out
 
 
-def _bigsym_cases(rng, ms, heavy_ms):
+def _bigsym_cases(rng, ms, heavy_ms, model_bip=True):
     """large symmetric groups: m mutually interchangeable species (|Aut| = m!, 720 / 5040): one reaction hub >> S1..Sm, one reaction
     S1+..+Sm >> P, m parallel reactions S_i >> P, and near misses (one coefficient raised: the group drops to (m-1)!).  The depth-first
     enumeration of such a group keeps its first node fixed for (m-1)! consecutive mappings."""
@@ -1748,7 +1748,7 @@ def _bigsym_cases(rng, ms, heavy_ms):
                     continue
                 nets = [_net_of(mk(ones)), _variant(mk(ones), rng, sp, _names(rng, len(sp))), _net_of(mk(bump))]
                 c = _case("bigsym", view, st, nets, ["base", "variant", "other"])
-                if m >= 7 or (name == "par" and view == "bip"):
+                if m >= 7 or (view == "bip" and (name == "par" or not model_bip)):
                     c["nomodel"] = True        # the Coq side is budgeted by group size x view size: these are judged by the oracle only
                 out.append(c)
     return out
@@ -1776,7 +1776,7 @@ def gen_cases(tier, rng):
     cases += _collision_cases()
     cases += _long_cases(rng)
     cases += _degenerate_cases(rng)
-    cases += _bigsym_cases(rng, [6], [6]) if tier == "quick" else _bigsym_cases(rng, [6, 7], [6])
+    cases += _bigsym_cases(rng, [6], [6], model_bip=False) if tier == "quick" else _bigsym_cases(rng, [6, 7], [6])
     cases += _intids_cases(rng)
     cases += _option_cases(rng)
     cases += _attr_cases(rng)
@@ -1800,7 +1800,7 @@ def gen_cases(tier, rng):
     return cases
 
 
-LEVEL_TEXT = ("Machine-checked proof (Coq, 43 theorems, closed under the global context) over an executable model of CRNCanonicalizer / "
+LEVEL_TEXT = ("Machine-checked proof (Coq, 47 theorems, closed under the global context) over an executable model of CRNCanonicalizer / "
               "CRNAutomorphism / WLCanonicalizer, the two network views and the analyzers' cached-view state, for ALL views: the canonical graph is the view relabelled by a bijection onto "
               "k+1..k+n (clause 1); a view renamed by a map injective on its nodes and presented in any other node/arc order gets the same "
               "minimal label and the identical canonical graph (clause 2: signature/label/initial partition equivariant, generic IR leaf "
